@@ -208,6 +208,27 @@ for _s in ("rest", "google"):
                )(_p1_wrap(_s, _et, _lo, _hi))
 
 
+# P1.three: three parameters of mixed kinds, two symbolic description characters (thorough) ----------------------------------------------
+def _p1_three(style, edd, et):
+    def body(x, y, i, b):
+        ps = [("alpha", {"typ": "int", "doc": "the " + chr(x) + " value"}),
+              ("beta", {"typ": "Optional[str]", "doc": "a " + chr(y) + " thing", "default": None}),
+              ("gamma", {"typ": "bool", "doc": "third", "default": b}),
+              ("delta", {"typ": "int", "doc": "fourth", "default": i})]
+        if style != "rest":
+            ps = ps[:1] + [(k, dict(v, default=(v["default"] if v.get("default") is not None else None))) for k, v in ps[1:]]
+        return check(mk_ir(ps, ret={"typ": "List[int]", "doc": "the result"}), style, edd, et)
+
+    return body
+
+
+for _s, _edd, _et in CONFIGS:
+    if _s == "numpydoc" and not _et:
+        continue
+    ob("C01", "P1.three.%s" % _cfg_tag(_s, _edd, _et), {"x": PR, "y": R(97, 97), "i": R(1, 1), "b": BOOL}, pre="x != 47", T=900, tier="thorough", funcs=FUNCS,
+       assumes=[ADHOC_SHIMS_DOC], bound="four parameters (int without default, Optional[str]=None, bool, int) with a symbolic description character and a List[int] return entry")(_p1_three(_s, _edd, _et))
+
+
 def f21_witness(x):
     return check(mk_ir([("a", {"typ": "int", "doc": "The " + chr(x) + "a"})]), "numpydoc", True, False)
 
